@@ -23,7 +23,8 @@ def run(ctx):
     # M1 first: it does not depend on the shape of the pool branch, which A3 needs
     rule_M1(ctx)      # what sample() hands out is inside the region contains() accepts
     from ..rowfacts import rule_M2
-    rule_M2(ctx)      # ... and contains() tests every member in one frame (the region is well defined)
+    rule_M2(ctx, 'NeuralBound.contains')      # contains() tests every member in one frame:
+    rule_M2(ctx, 'NautilusBound.contains')    # the region proposals are uniform over is well defined
     rule_A3(ctx)
     rule_T8ii(ctx, 'Union.sample')
     rule_T8ii(ctx, 'NautilusBound.sample')
